@@ -141,7 +141,7 @@ class ExpressionTokenizer:
                 self.tokens.append(">>")
             elif self.match(expected="<", append=False) and self.match(expected="<", append=False):
                 self.tokens.append("<<")
-            elif self.match(expected={" ", "\t"}, append=False):
+            elif self.match(expected={" ", "\t", "\r", "\n"}, append=False):
                 continue
             else:
                 raise ExpressionTokenizerError(
